@@ -1350,6 +1350,16 @@ func localTypes(p *pkg, fd *ast.FuncDecl) map[string]Type {
 			}
 		case *ast.AssignStmt:
 			if x.Tok == token.DEFINE {
+				// `n, err := v.ReadFrom(r)` / `n, err := v.WriteTo(w)`: io.ReaderFrom / io.WriterTo return (int64, error)
+				if len(x.Lhs) == 2 && len(x.Rhs) == 1 {
+					if c, ok := x.Rhs[0].(*ast.CallExpr); ok {
+						if sel, ok := c.Fun.(*ast.SelectorExpr); ok && (sel.Sel.Name == "ReadFrom" || sel.Sel.Name == "WriteTo") {
+							if id, ok := x.Lhs[0].(*ast.Ident); ok && id.Name != "_" {
+								m[id.Name] = Type{64, true, false}
+							}
+						}
+					}
+				}
 				for i, l := range x.Lhs {
 					id, ok := l.(*ast.Ident)
 					if !ok || i >= len(x.Rhs) || len(x.Lhs) != len(x.Rhs) {
